@@ -14,8 +14,9 @@ post-start), every map order `pp`/`ps`, every set of blocked addresses — no bo
 
 `changeTo c e s` is the tail of changeConfig once the raw tree has been mutated to `c`
 (load, or the result of a partial change); `step` wraps it for every operation kind.
-The region the unchanged tree violates (finding F2) is `httpBindExcluded` (Spec.lean); the
-refuted full statement and its witness are in Witness.lean.
+All clauses hold at full strength since the HTTP app's Start releases what it bound when it
+fails (former finding F2); the old Start is kept as `startAppOld` and shown to break the
+statement in Witness.lean (`load_atomic_old_code_fails`).
 -/
 import CaddyModel.C01.Witness
 import CaddyModel.C03.LemmasP
@@ -25,40 +26,27 @@ open CaddyModel.Lifecycle
 
 /-! ### one attempt -/
 
-/-- **rejected ⇒ no trace in the raw tree, the context, or the old sockets** (full strength for
-    these clauses). For every state whose raw tree is in sync, every configuration, fault, order
-    and environment: if the attempt is rejected, the config read back is the previous one, the
-    current context is untouched, the previous sockets are all still there, in place, and
-    anything left over is a socket of the rejected configuration's HTTP app (`Own … [3]`) —
-    nothing at all outside F2's region. -/
+/-- **all-or-nothing, rejected half** (full strength). For every state whose raw tree is in sync,
+    every configuration, fault, order and environment: if the attempt is rejected, the config read
+    back is the previous one, the current context is untouched, and the sockets are exactly the
+    previous ones, in place — nothing of the rejected configuration is left bound. -/
 theorem rejected_changes_nothing (s : State) (c : Cfg) (e : Env)
     (hw : s.raw = s.rawJSON) (hs : ∀ k ∈ s.socks, k.cid < s.next)
     (hr : (changeTo c e s).2.accepted = false) :
     (changeTo c e s).1.raw = s.raw ∧ (changeTo c e s).1.rawJSON = s.rawJSON ∧
     (changeTo c e s).1.cur = s.cur ∧ (changeTo c e s).1.next = s.next ∧
-    Own s.next s.socks [3] (changeTo c e s).1 ∧
-    (httpBindExcluded c e = false → (changeTo c e s).1.socks = s.socks) :=
+    (changeTo c e s).1.socks = s.socks :=
   rejected_changes_nothing' s c e hw hs hr
 
-/-- **old sockets untouched** (full strength, F2 included): after a rejected attempt the socket
-    list is the old one followed by `extra`, and every extra socket belongs to the HTTP app of
-    the context that was just rejected. -/
-theorem old_sockets_untouched (s : State) (c : Cfg) (e : Env)
+/-- **load_atomic** (full strength): a rejected attempt leaves the observable state (config read
+    back, who answers where) exactly as it was — including when the HTTP app's own Start fails at
+    its k-th listener after binding the earlier ones. -/
+theorem load_atomic (s : State) (c : Cfg) (e : Env)
     (hw : s.raw = s.rawJSON) (hs : ∀ k ∈ s.socks, k.cid < s.next)
     (hr : (changeTo c e s).2.accepted = false) :
-    ∃ extra, (changeTo c e s).1.socks = s.socks ++ extra ∧ ∀ k ∈ extra, k.cid = s.next ∧ k.app = 3 := by
-  obtain ⟨X, h1, h2⟩ := (rejected_changes_nothing s c e hw hs hr).2.2.2.2.1
-  exact ⟨X, h1, fun k hk => ⟨(h2 k hk).1, by simpa using (h2 k hk).2⟩⟩
-
-/-- **all-or-nothing, rejected half, partial** (the full statement — without the exclusion — is
-    refuted in Witness.lean): outside F2's region a rejected attempt leaves the observable state
-    (config read back, who answers where) exactly as it was. -/
-theorem load_atomic_partial (s : State) (c : Cfg) (e : Env)
-    (hw : s.raw = s.rawJSON) (hs : ∀ k ∈ s.socks, k.cid < s.next)
-    (hx : httpBindExcluded c e = false) (hr : (changeTo c e s).2.accepted = false) :
     obs (changeTo c e s).1 = obs s := by
-  obtain ⟨h1, _, _, _, _, h6⟩ := rejected_changes_nothing s c e hw hs hr
-  simp [obs, answers, h1, h6 hx]
+  obtain ⟨h1, _, _, _, h5⟩ := rejected_changes_nothing s c e hw hs hr
+  simp [obs, answers, h1, h5]
 
 /-- **accepted ⇒ installed** (full strength, no hypothesis on the state): the config read back is
     the submitted one, the current context is the new one with exactly the submitted apps, and
@@ -119,16 +107,16 @@ theorem reachable_invariants (ops : List Op) :
 
 /-! ### every history -/
 
-/-- **history_atomic_partial.** For EVERY history of load / partial-change / malformed / validate
-    / stop operations in which no attempt falls into F2's region, with every fault and every map
-    order at every step: what the admin API reads back is the spec's running configuration (the
-    last accepted one), exactly its listeners answer, each with its own tag (as a multiset), and
-    when nothing runs no socket exists. -/
-theorem history_atomic_partial (ops : List Op) (hx : noExcluded State.init none ops = true) :
+/-- **history_atomic** (full strength). For EVERY history of load / partial-change / malformed /
+    validate / stop operations, with every fault and every map order at every step: what the admin
+    API reads back is the spec's running configuration (the last accepted one), exactly its
+    listeners answer, each with its own tag (as a multiset), and when nothing runs no socket
+    exists. -/
+theorem history_atomic (ops : List Op) :
     (runBoth State.init none ops).1.raw = (runBoth State.init none ops).2 ∧
     (answers (runBoth State.init none ops).1).Perm (Spec.cfgAnswers (runBoth State.init none ops).2) ∧
     ((runBoth State.init none ops).2 = none → (runBoth State.init none ops).1.socks = []) := by
-  have h := inv_runBoth ops State.init none inv_init hx
+  have h := inv_runBoth ops State.init none inv_init
   refine ⟨h.raw, ?_, ?_⟩
   · generalize (runBoth State.init none ops).2 = r at h
     cases r with
@@ -140,14 +128,14 @@ theorem history_atomic_partial (ops : List Op) (hx : noExcluded State.init none 
 
 /-- the same, one step at a time, from any state that satisfies the invariant (`Inv s r`: the
     model state `s` is exactly the spec's running configuration `r`) -/
-theorem step_atomic_partial (s : State) (r : Option Cfg) (op : Op) (h : Inv s r)
-    (hx : excluded r op = false) : Inv (step s op).1 (Spec.step r op (step s op).2.accepted) :=
-  inv_step h op hx
+theorem step_atomic (s : State) (r : Option Cfg) (op : Op) (h : Inv s r) :
+    Inv (step s op).1 (Spec.step r op (step s op).2.accepted) :=
+  inv_step h op
 
 /-- Stop leaves nothing behind -/
 theorem stop_leaves_nothing (s : State) (r : Option Cfg) (h : Inv s r) :
     (step s .stop).1.socks = [] ∧ (step s .stop).1.raw = none ∧ (step s .stop).1.cur = none := by
-  have := inv_step h .stop rfl
+  have := inv_step h .stop
   exact ⟨this.run.2, rfl, rfl⟩
 
 /-! ### non-vacuity: concrete instances (kernel-evaluated) -/
@@ -162,7 +150,7 @@ def exState : State := (step State.init (.load exOld ⟨true, false, 0, [], [0, 
 
 -- the hypotheses of the rejected-attempt theorems hold in a non-trivial state …
 example : exState.raw = exState.rawJSON ∧ (∀ k ∈ exState.socks, k.cid < exState.next) ∧
-    (changeTo exNew exEnv exState).2 = .errStart ∧ httpBindExcluded exNew exEnv = false ∧
+    (changeTo exNew exEnv exState).2 = .errStart ∧
     answers exState = [(0, 1), (1, 2)] := by decide
 -- … and the failing attempt really started (and stopped) an app before being rejected
 example : ((changeTo exNew exEnv exState).1.aevents.filter
@@ -182,11 +170,12 @@ example : (changeTo ⟨0, [], [⟨0, 5, 0, [2], [⟨0, 1⟩, ⟨0, 2⟩]⟩, ⟨
     exState.mpool 0 = 1 := by decide
 -- "unchanged"
 example : (changeTo exOld ⟨false, false, 0, [], [], []⟩ exState).2 = .same := by decide
--- a history with rejected attempts in the middle satisfies the hypothesis of history_atomic_partial
-example : noExcluded State.init none
-    [.load exOld exEnv, .load exNew exEnv, .patch ⟨3, 9, 2, [4], []⟩ exEnv, .junk, .del 0 exEnv, .stop] = true := by decide
+-- the HTTP app's Start fails at its SECOND listener (address 1 held by somebody else, address 2
+-- bound first): rejected, and nothing of it is left
+example : (changeTo ⟨0, [], [⟨3, 9, 0, [2, 4], []⟩]⟩ ⟨true, false, 0, [4], [3], [3]⟩ exState).2 = .errStart ∧
+    answers (changeTo ⟨0, [], [⟨3, 9, 0, [2, 4], []⟩]⟩ ⟨true, false, 0, [4], [3], [3]⟩ exState).1 = answers exState := by decide
 example : Inv exState (some exOld) := by
-  have := inv_step inv_init (.load exOld ⟨true, false, 0, [], [0, 3], [0, 3]⟩) rfl
+  have := inv_step inv_init (.load exOld ⟨true, false, 0, [], [0, 3], [0, 3]⟩)
   exact this
 
 end CaddyModel.C01
